@@ -2,8 +2,10 @@ from collections import Counter
 import random
 import torch
 import os
+import inspect
 import logging
 import sys
+from typing import Any
 from pathlib import Path
 
 unix_like = os.name != "nt"
@@ -48,6 +50,20 @@ def init_logging(log_level: int, log_file: Path | None) -> logging.Logger:
         logger.removeHandler(h)
     logger.addHandler(handler)
     return logger
+
+
+def observable_compat_kwargs(method: str = "SKIP") -> dict[str, Any]:
+    """
+    pulser-core >= 1.9 requires every Observable to be constructed with a
+    `default_aggregation_method`; earlier versions do not accept that argument.
+    Returns the keyword arguments to forward to `Observable.__init__`.
+    """
+    from pulser.backend import observable
+
+    init_params = inspect.signature(observable.Observable.__init__).parameters
+    if "default_aggregation_method" not in init_params:
+        return {}
+    return {"default_aggregation_method": observable.AggregationMethod[method]}
 
 
 def deallocate_tensor(t: torch.Tensor) -> None:
